@@ -27,7 +27,7 @@ func verifNoErr(set LabelSet) bool {
 // C06-O1: pattern stage: every named capture is reported with exactly its
 // value, `_` is not, the line is kept unchanged; a non-matching line is kept.
 func verifC06Pattern(maxLen int) {
-	which := vsymChoice("pattern", 3)
+	which := vsymChoice("pattern", 4)
 	var pat, line string
 	want := map[string]string{}
 	a := vsymString("a", 1+vsymChoice("alen", maxLen))
@@ -50,6 +50,13 @@ func verifC06Pattern(maxLen int) {
 		noByte(a, ':')
 		noByte(b, 'y')
 		line = "x" + a + ":" + b + "y"
+		want["a"], want["b"] = a, b
+	case 3:
+		// a multi-byte delimiter: the capture may hold any bytes (it is too
+		// short to contain the three-byte delimiter), among them the
+		// delimiter's own lead byte
+		pat = "<a>\u2192<b>"
+		line = a + "\u2192" + b
 		want["a"], want["b"] = a, b
 	default:
 		pat = "[<_>] <b>"
